@@ -93,7 +93,7 @@ ASSUMPTIONS = ["surrounding blanks are a harmless decoration for row markers, fi
                "(counted as out of domain; the direct oracle still applies)"]
 
 ROW_RE = re.compile(r"\(R(\d+)C\d+\)")
-POOL_ENCODINGS = ["utf-8", "latin-1", "cp1252", "ascii", "iso-8859-15", "nope", "UTF-8", ""]
+POOL_ENCODINGS = ["utf-8", "latin-1", "cp1252", "ascii", "iso-8859-15", "nope", "UTF-8", "", "utf-16", "punycode", "rot13", "hex", "undefined"]
 
 
 def env_of():
@@ -314,18 +314,6 @@ def rewrites(rnd, rows):
                     r[k] = rnd.choice(["", " ", "  "]) + r[k] + rnd.choice(["", " "])
         out.append(r)
     yield "blanks", out
-    # an example with white space around it that its field accepts as it stands is kept as it stands
-    f_rows = [i for i, r in enumerate(rows) if r[0] == "F"]
-    if rows[0][2].lower() != "fixed":
-        yield "padded-example-kept", rows[:f_rows[-1] + 1] + [["F", "padded_example", " ab ", "", "4", "Text"]] + rows[f_rows[-1] + 1:]
-    d_rows = [r for r in rows[1:] if r[0] == "D"]
-    rest = [r for r in rows[1:] if r[0] != "D"]
-    if len(d_rows) > 1:
-        rnd.shuffle(d_rows)
-        yield "reordered-properties", [rows[0]] + d_rows + rest
-
-
-# ------------------------------------------------------------------ (b) defects
 
 
 def defects(rnd, rows):
@@ -423,6 +411,10 @@ def gen_inputs(tier, rnd):
         fixed = any(len(r) > 2 and r[0].strip().lower() == "d" and r[2].strip().lower() == "fixed" for r in rows)
         late_rows = rows[:first_c] + [["F", "late_field", "", "X", "3" if fixed else "", late, "a|b"]] + rows[first_c:] + [["C", "late check", late, "accept"]]
         yield {"kind": "base", "rows": late_rows, "late": late}
+        # an example with white space around it that its field accepts as it stands is kept as it stands
+        if not fixed:
+            last_f = max(i for i, r in enumerate(rows) if r and r[0].strip().lower() == "f")
+            yield {"kind": "base", "rows": rows[:last_f + 1] + [["F", "padded_example", " ab ", "", "4", "Text"]] + rows[last_f + 1:]}
         for name, rw in rewrites(rnd, rows):
             yield {"kind": "rewrite", "rewrite": name, "rows": rw, "base_rows": rows}
         for k, (name, bad, at) in enumerate(defects(rnd, rows)):
